@@ -73,7 +73,7 @@ theorem C15_response_bytes (accept : Bytes) :
   have e3 : lowerAll srvRespAcceptName ++ colonSp
       = [115,101,99,45,119,101,98,115,111,99,107,101,116,45,97,99,99,101,112,116,58,32] := by decide
   unfold response101
-  rw [e1, e2]
+  rw [headerLines_base, e1, e2]
   unfold headerLine
   rw [e3]
   simp only [List.map_nil, List.flatten_nil, List.append_nil, crlf, List.append_assoc]
